@@ -144,7 +144,7 @@ def run_case(case):
     sc = case["sc"]
     with scratch_dir("c02") as d:
         world = c04.make_world(d, sc["world"])
-        base = build_base(world, sc["nprior"])
+        base = build_base(world, sc["nprior"], multi=bool(sc.get("multi_base")))
         reads_log = []  # (reader idx, read idx, a, b, outcome)
 
         def make_actors(w, sch, clk):
@@ -272,7 +272,7 @@ def run_case(case):
                 continue
             if spec.get("fault"):
                 out["labels"].append("faulted-read-returned")
-            if r[0] == "raise" and collecting and (isinstance(r[1], FileNotFoundError) or "exist" in str(r[1]) or "No such file" in str(r[1]) or "missing" in str(r[1]).lower()):
+            if r[0] == "raise" and collecting and (isinstance(r[1], FileNotFoundError) or "exist" in str(r[1]) or "No such file" in str(r[1]) or "missing" in str(r[1]).lower() or "NoSuchKey" in str(r[1]) or "Not Found" in str(r[1]) or "404" in str(r[1])):
                 out["labels"].append("read-raised-after-collection")  # the snapshot being read was expired and collected: failing closed is right
                 continue
             if r[0] == "raise":
@@ -318,6 +318,8 @@ FIXED = [
     {"world": "local", "topology": "separate", "nprior": 2, "readers": [[read_spec(api="scan"), read_spec(api="row_count")]], "writers": [{"op": "replace", "which": 0}, {"op": "append"}]},
     {"world": "local", "topology": "separate", "nprior": 1, "readers": [[read_spec(api="scan"), read_spec(api="row_count")]], "writers": [{"op": "late_fault", "j": 2}]},
     {"world": "local", "topology": "separate", "nprior": 3, "readers": [[read_spec(api="scan"), read_spec(api="batches1")]], "writers": [{"op": "replace_gc", "which": 1}]},
+    {"world": "local", "topology": "separate", "nprior": 0, "multi_base": True, "readers": [[read_spec(api="scan"), read_spec(api="row_count")]],
+     "writers": [{"op": "delete", "which": 1}, {"op": "delete", "which": 0}]},
     {"world": "local", "topology": "rw0", "all_orders": True, "nprior": 1, "readers": [[read_spec(api="scan"), read_spec(api="row_count")]], "writers": [{"op": "failing"}, {"op": "append"}]},
 ]
 # two readers on ONE shared handle (threads sharing a Table) + a writer: anything a read leaves on the handle must not leak into the other reader
@@ -384,7 +386,7 @@ def pct_case(draw):
     n = len(readers) + len(writers)
     order = draw(st.permutations(list(range(n))))
     pre = [[draw(st.integers(1, 160)), draw(st.integers(0, n - 1))] for _ in range(draw(st.integers(0, 3)))]
-    return {"kind": "sched", "sc": {"world": world, "topology": topo, "nprior": nprior, "readers": readers, "writers": writers},
+    return {"kind": "sched", "sc": {"world": world, "topology": topo, "nprior": nprior, "readers": readers, "writers": writers, **({"multi_base": True} if draw(st.integers(0, 3)) == 0 else {})},
             "schedule": {"order": list(order), "preempt": sorted(pre)}, "seed": draw(st.integers(0, 3))}
 
 
